@@ -4,8 +4,6 @@ import (
 	"fmt"
 	"go/ast"
 	"go/token"
-	"os"
-	"path/filepath"
 	"strconv"
 	"strings"
 
@@ -67,23 +65,10 @@ func c09FindCmp(f *goast.File, fd *ast.FuncDecl, needles ...string) (*ast.Binary
 	return hit, nil
 }
 
-// the header gotrans' main puts in front of every generated file (kept identical, so that C08 and C09
-// runs write the same Gen_C08.v)
-const c09GenHead = "(* GENERATED by harness/cmd/gotrans from /repo's working tree on every run. Do not edit. *)\n" +
-	"From Coq Require Import ZArith List String.\nFrom PDV Require Import lib.Skel.\nImport ListNotations.\nOpen Scope string_scope.\n\n"
-
 func genC09(repo string) (string, error) {
 	var o out
-	// C09's model is built on model/C08_Steps.v, which reads step.go facts from Gen_C08.v: refresh it too
-	if len(os.Args) == 4 {
-		body, err := genC08(repo)
-		if err != nil {
-			return "", err
-		}
-		if err := goast.WriteIfChanged(filepath.Join(os.Args[3], "Gen_C08.v"), c09GenHead+body); err != nil {
-			return "", err
-		}
-	}
+	// C09's model is built on model/C08_Steps.v, which reads step.go facts from Gen_C08.v: checks/C09.json lists
+	// "gen_ids": ["C09", "C08"], so bin/check regenerates both
 	sf, err := goast.Load(repo, "server/schedule/operator/status.go")
 	if err != nil {
 		return "", err
